@@ -8,6 +8,8 @@ pub mod s_dtype;
 pub mod s_hier;
 pub mod s_rules;
 pub mod ir;
+pub mod exec;
+pub mod data;
 pub mod s_dp;
 pub mod s_fn;
 pub mod s_inj;
